@@ -144,10 +144,11 @@ def run(module, cfg=None, *, workers=16, timeout=1500, coverage=True, env=None, 
     """Run TLC on specs/<module>.tla with specs/<cfg>; return Result. Raises MachineryError on tool failure."""
     spec = module if module.endswith('.tla') else module + '.tla'
     cfg = cfg or (os.path.splitext(spec)[0] + '.cfg')
-    meta = tempfile.mkdtemp(prefix='tlcmeta-')
+    meta = tempfile.mkdtemp(prefix='tlcmeta-', dir=os.environ.get('VERIF_TLC_TMP') or None)
     cmd = ['java', '-XX:+UseParallelGC']
     if heap:
         cmd.append(f'-Xmx{heap}')
+    cmd.append(f'-Djava.io.tmpdir={meta}')   # TLC unpacks its standard modules into java.io.tmpdir
     if dfs:
         cmd.append('-Dtlc2.tool.queue.IStateQueue=StateDeque')
     cmd += ['-cp', JAR, 'tlc2.TLC', '-workers', str(workers), '-metadir', meta, '-noGenerateSpecTE']
